@@ -125,7 +125,17 @@ def work(task):
             if sample is None and len(s) >= 4:
                 sample = s
         if r is not None and len(bad) < 20:
-            bad.append((s, r[0], r[1]))
+            bad.append((s, r[0], r[1], None))
+    # the parser must be a pure function of its argument: after this batch of
+    # calls, every short string must still be classified correctly (catches
+    # state remembered between calls, e.g. a memo shared by two sites)
+    for L in range(0, 6):
+        for tup in itertools.product(alphabet[:4], repeat=L):
+            s = "".join(tup)
+            n += 1
+            r = classify(s, False)
+            if r is not None and len(bad) < 20:
+                bad.append((s, "after-other-calls:" + r[0], r[1], task))
     return n, acc, bad, sample
 
 
@@ -184,19 +194,29 @@ def run(ctx):
     # report shortest counterexample per kind, after a determinism re-check
     bad_all.sort(key=lambda b: (len(b[0]), b[0]))
     seen = set()
-    for s, kind, detail in bad_all:
+    for s, kind, detail, task in bad_all:
         if kind in seen:
             continue
-        again = [classify(s, True) for _ in range(3)]
-        kinds = {a[0] if a else None for a in again}
-        if kinds != {kind} and kind not in kinds:
-            ctx.unreproduced.append([s, kind])
-            continue
+        if task is not None:
+            # state-dependent: reproduce by replaying the same batch of calls
+            # in this (fresh) process
+            again = {(x[0], x[1]) for x in work(task)[2]}
+            if (s, kind) not in again:
+                ctx.unreproduced.append([s, kind])
+                continue
+        else:
+            again = [classify(s, True) for _ in range(3)]
+            kinds = {a[0] if a else None for a in again}
+            if kind not in kinds:
+                ctx.unreproduced.append([s, kind])
+                continue
         seen.add(kind)
         ctx.violation(
-            kind,
+            "C15/" + kind,
             {"scenario": "parse_type", "input": s, "kind": kind,
-             "detail": detail, "expected": repr(ref_parse(s))},
+             "detail": detail, "expected": repr(ref_parse(s)),
+             "after_batch": None if task is None else
+             {"alphabet": list(task[0]), "prefix": task[1], "length": task[2]}},
         )
     rejected_samples = ["a<b>c", "a<b>>", "a<,b>"]
     cov = {
@@ -231,6 +251,12 @@ def run(ctx):
 
 def replay(doc):
     s = doc["input"]
+    ab = doc.get("after_batch")
+    if ab:
+        bad = work((tuple(ab["alphabet"]), ab["prefix"], ab["length"], False))[2]
+        hit = [b for b in bad if b[0] == s]
+        print("after batch %r: %r" % (ab, hit[:2]))
+        return 1 if hit else 0
     r = classify(s, True)
     print("input=%r reference=%r result=%r" % (s, ref_parse(s), r))
     return 1 if r else 0
